@@ -19,7 +19,7 @@ var rec *mon.Rec
 // group is one case of the plan: a batch of seeded histories / sequences or
 // one block of an exhaustive enumeration.
 type group struct {
-	kind    string // map | atomic | slice | slice-args | slice-seeded | map-keys-alias | ring-seeded | ring-exh | buf-exh | buf-seeded
+	kind    string // map | atomic | slice | slice-args | slice-seeded | map-keys-alias | zero-values | ring-values | ring-seeded | ring-exh | buf-exh | buf-exh3 | buf-seeded
 	a, b, c int
 	n       int
 }
@@ -34,6 +34,12 @@ func (g group) String() string {
 		return fmt.Sprintf("slice caller-owned arguments seeded: %d sequences over two instances sharing one caller buffer (stream c14-slice-alias, idx*4096+sub)", g.n)
 	case "map-keys-alias":
 		return "cmap.Map: the caller overwrites / appends to the slice returned by Keys(), sizes 0..3"
+	case "zero-values":
+		return fmt.Sprintf("zero-value keys and values: %d seeded sequential sequences over 9 instantiations (stream c14-zero, idx*4096+sub)", g.n)
+	case "ring-values":
+		return fmt.Sprintf("ring.Ring[any] with arbitrary values: %d seeded sequences (stream c14-ring-values, idx*4096+sub)", g.n)
+	case "buf-exh3":
+		return fmt.Sprintf("buffered exhaustive with values {fresh,nil,shared}: initial=%d buffer=%d, all valid sequences of length %d starting with symbol %d", g.a, g.b, g.n, g.c)
 	case "ring-seeded":
 		return fmt.Sprintf("ring seeded: %d sequences (stream c14-ring, idx*4096+sub)", g.n)
 	case "ring-exh":
@@ -48,6 +54,7 @@ var (
 	ringExhLen  = 0
 	ringExhInit = 0
 	bufExhLen   = 0
+	bufExh3Len  = 0
 )
 
 func plan() []group {
@@ -68,8 +75,11 @@ func plan() []group {
 	}
 	add("slice-seeded", mon.Pick(40, 1000), 100)
 	add("map-keys-alias", 1, 0)
+	// zero-value keys and values (sequential differentials over several instantiations)
+	add("zero-values", mon.Pick(20, 400), 90)
 	// ring vs container/ring
 	add("ring-seeded", mon.Pick(400, 10000), mon.Pick(50, 100))
+	add("ring-values", mon.Pick(100, 2500), mon.Pick(50, 100))
 	ringExhLen = mon.Pick(5, 6)
 	A := len(ringAlphabet)
 	ringExhInit = 3
@@ -81,10 +91,19 @@ func plan() []group {
 		}
 	}
 	// buffered vs queue
-	bufExhLen = mon.Pick(14, 18)
+	bufExhLen = mon.Pick(12, 18)
 	for a := 0; a <= 5; a++ {
 		for b := 0; b <= 5; b++ {
 			gs = append(gs, group{kind: "buf-exh", a: a, b: b, n: bufExhLen})
+		}
+	}
+	// value alphabet {fresh pointer, nil, the same pointer again}: sizes 0..3, first symbol fixed per group
+	bufExh3Len = mon.Pick(8, 10)
+	for a := 0; a <= 3; a++ {
+		for b := 0; b <= 3; b++ {
+			for c := 0; c < 3; c++ {
+				gs = append(gs, group{kind: "buf-exh3", a: a, b: b, c: c, n: bufExh3Len})
+			}
 		}
 	}
 	add("buf-seeded", mon.Pick(360, 18000), mon.Pick(50, 100))
@@ -106,6 +125,9 @@ func TestCheck(t *testing.T) {
 	if msg := checkRingLayout(); msg != "" {
 		rec.Fatalf("%s", msg)
 	}
+	if msg := checkVRingLayout(); msg != "" {
+		rec.Fatalf("%s", msg)
+	}
 	if msg := checkBufferedLayout(); msg != "" {
 		rec.Fatalf("%s", msg)
 	}
@@ -116,6 +138,9 @@ func TestCheck(t *testing.T) {
 	gs := plan()
 	rec.Note("rule", "Linearizability (cmap.Map, cmap.Atomic, slice): a case is one seeded concurrent program (0-3 op sequential prefix, then 2-4 goroutines x 1-5 ops over 1-3 keys, unique written values, start barrier, optional per-round barriers, seeded Gosched perturbation) run against the real structure; the recorded call/return history is checked by porcupine against an un-partitioned sequential model (Map: Go map incl. Len/Keys/Range/Clear; Atomic: key->object identity + per-object integer, GetOrCreate must return the current object or a fresh one; slice: append-only sequence with copy semantics - every Append argument is a caller-owned window of a re-used buffer with 0-8 elements of spare capacity that the caller overwrites / appends to / hands to a second instance right after the call). Every history ends with sequential observers (Range+Len, ForEach, Slice+Len). Non-trivial = at least two operations of different goroutines really overlapped in the recorded history; distinct = distinct program text. "+
 		"Aliasing (sequential): every scenario of {0-2 prior appends} x {argument window n 0..3, spare capacity 0..8, offset 0/2} x {shared with a second Slice instance, overwritten by the caller, appended to by the caller, buffer re-used for the next call}, Len and Slice of both instances compared with plain slices after every step; seeded sequences of the same actions over two instances; the caller appending to the result of Slice(); the caller overwriting / appending to the result of Map.Keys(). A caller overwriting an element of the result of Slice() is observed, not judged. "+
+		"Zero values: in the concurrent map/atomic histories the first key is the empty string and a sixth of the stored / initial values are 0; sequential differentials against a builtin map / slice over cmap.Map[string,int], [int,string], [string,*int], [any,any], [bool,struct{}], cmap.Atomic[string,int64], [int,int64], Slice[*int], Slice[any] with zero keys ('', 0, nil, false) and zero values (0, '', nil pointer, nil interface, typed nil pointer), all observers after every step. "+
+		"ring.Ring[any] vs container/ring with element values nil / zero / equal / typed-nil / shared pointers (values also reassigned mid-sequence), Move and Unlink with 0, negative and multiples of the length, rings of length 1, a ring linked with itself. "+
+		"ring.Buffered additionally with the value alphabet {fresh pointer, nil, the same pointer again}: every valid sequence of the stated length over {3 appends, RemoveFront} for sizes 0..3 x 0..3, and in the seeded sequences. "+
 		"ring.Ring: seeded sequences of 1-60 steps (New 0..5, zero element, Next, Prev, Move(+-n), Link, Unlink, Len, Do) applied to ring.Ring and container/ring side by side, after every step the link structure (raw next/prev of every element ever created), values and returned element must correspond; plus every sequence of the stated length over a 13-symbol two-handle alphabet from each initial (New(a),New(b)), a,b in 0..3, with Len and Do on both handles after every step. Non-trivial = at least one Link/Unlink executed. "+
 		"ring.Buffered: every valid AppendBack/RemoveFront sequence of the stated length for each (initial, buffer) in 0..5 x 0..5 with Len, Front, Range and early-stopping Range compared with a slice queue after every step; plus seeded sequences of 1-60 steps with grow/drain phases and a final drain. RemoveFront is only issued on a non-empty queue. Non-trivial = at least one RemoveFront.")
 	rec.Note("require", []string{
@@ -125,9 +150,13 @@ func TestCheck(t *testing.T) {
 		"ring.exhaustive.link_same_ring", "ring.exhaustive.link_other_ring", "ring.exhaustive.unlink_calls",
 		"buffered.exhaustive.grow_events", "buffered.exhaustive.shrink_events", "buffered.seeded.grow_events", "buffered.seeded.shrink_events", "buffered.seeded.range_stopped_early",
 		"lin.slice.op.Append.arg_overwritten_after_call", "lin.slice.op.Append.arg_appended_to_by_caller", "lin.slice.op.Append.arg_shared_with_second_instance",
+		"buffered.exhaustive_values.append_with_nil_at_front_of_full_ring", "buffered.seeded.append_with_nil_at_front_of_full_ring", "buffered.seeded.appended_same_pointer_again",
+		"ring.values.nil_values_seen_by_do", "ring.values.link_with_itself", "ring.values.link_or_unlink_on_length_1", "ring.values.arg_zero", "ring.values.arg_negative", "ring.values.arg_multiple_of_len",
+		"ring.seeded.arg_multiple_of_len", "ring.seeded.link_with_itself", "ring.seeded.length_1_receivers",
+		"zero.present_zero_key_observed", "zero.present_zero_value_observed",
 		"alias.slice.scenarios", "alias.slice.seeded_sequences", "alias.map.keys_checks",
 		"selftest.models_ok"})
-	rec.Note("exhaustive", fmt.Sprintf("ring: all %d^%d sequences over the reduced alphabet from each of the %d initial states (New(a),New(b)), a,b in 0..%d; buffered: all valid AppendBack/RemoveFront sequences of length %d for the 36 size pairs. The linearizability part is sampled, not exhaustive.", len(ringAlphabet), ringExhLen, (ringExhInit+1)*(ringExhInit+1), ringExhInit, bufExhLen))
+	rec.Note("exhaustive", fmt.Sprintf("ring: all %d^%d sequences over the reduced alphabet from each of the %d initial states (New(a),New(b)), a,b in 0..%d; buffered: all valid AppendBack/RemoveFront sequences of length %d for the 36 size pairs, and all valid sequences of length %d over {AppendBack(fresh), AppendBack(nil), AppendBack(shared), RemoveFront} for the 16 size pairs 0..3. The linearizability part is sampled, not exhaustive.", len(ringAlphabet), ringExhLen, (ringExhInit+1)*(ringExhInit+1), ringExhInit, bufExhLen, bufExh3Len))
 	rec.Note("gomaxprocs", runtime.GOMAXPROCS(0))
 	rec.Planned(len(gs))
 	timing := map[string]time.Duration{}
@@ -151,6 +180,12 @@ func TestCheck(t *testing.T) {
 			runSliceSeeded(idx, g)
 		case "map-keys-alias":
 			runMapKeysAlias(idx, g)
+		case "zero-values":
+			runZeroValues(idx, g)
+		case "ring-values":
+			runRingValues(idx, g)
+		case "buf-exh3":
+			runBufExhaustiveValues(idx, g)
 		case "ring-seeded":
 			runRingSeeded(idx, g)
 		case "ring-exh":
